@@ -48,7 +48,7 @@ class Deadlock(Exception):
     pass
 
 
-def explore(run_schedule, max_preempt, limit=None, max_inner=None, novel=None):
+def explore(run_schedule, max_preempt, limit=None, max_inner=None, novel=None, allow=None):
     """Stateless preemption-bounded exploration.  run_schedule(decisions) runs one execution
     that follows the default policy (keep running the current actor while it is enabled; at a
     forced switch take the lowest enabled actor) except at the step indices in `decisions`
@@ -69,6 +69,8 @@ def explore(run_schedule, max_preempt, limit=None, max_inner=None, novel=None):
         if limit is not None and seen >= limit:
             return
         for s in range(first, len(trace)):
+            if allow is not None and not allow(trace, s):      # deviations only where the scenario permits
+                continue
             cur, enabled, chosen = trace[s][:3]
             is_inner = bool(trace[s][3]) if len(trace[s]) > 3 else False
             point = trace[s][4] if len(trace[s]) > 4 else None
@@ -485,6 +487,108 @@ def app_sweep(ctx, templates, nthreads, max_preempt, limit, tag, deadline=None):
                                phase='race' if res != serial else 'after-race'), key='app-resp')
         ctx.count('wsgi-app-schedules')
     ctx.note_case((tag, 'wsgi', json.dumps(templates)), True)
+    return n
+
+
+# ------------------------------------------------------------------ lookups in flight during add_route + recompile
+
+INFLIGHT = [
+    # (templates before, warm-up lookup or None, A's path, B's new template, B's path)
+    (['/{name:slow}'], '/warm', '/bob', '/admin', '/admin'),
+    (['/{name:slow}'], None, '/bob', '/admin', '/admin'),
+    (['/u/{name:slow}', '/u/{n:int}-{m}', '/v'], '/u/x', '/u/bob', '/u/aaa', '/u/aaa'),
+    (['/{a:slow}/x', '/zzz/y'], '/q/x', '/bob/x', '/admin/x', '/admin/x'),
+    (['/p/{a:slow}-{b:int}', '/p/{c}'], '/p/k', '/p/bob-7', '/p/000', '/p/bob-x'),
+]
+
+
+def inflight_sweep(ctx, scenario, max_preempt, tag, deadline=None, decisions_only=None):
+    """thread A: find() on a route whose converter parks inside convert(); thread B: add_route of a
+    literal sibling that sorts in front + a lookup (forces the recompile); A's answer must be its
+    serial answer (a finder keeps the tables it was compiled with: C19_compiled_tables_stable)"""
+    from falcon.routing import compiled, converters
+    before, warm, path_a, tpl_b, path_b = scenario
+    holder = {}
+
+    class Slow(converters.BaseConverter):
+        def convert(self, value):
+            sched = holder.get('sched')
+            tid = sched.current_tid() if sched is not None else None
+            if tid is not None:
+                sched.yield_baton(tid, line=('convert', 0))      # parked inside the converter
+            return value.upper()
+
+    def make(with_b):
+        r = compiled.CompiledRouter()
+        r.options.converters['slow'] = Slow
+        for i, t in enumerate(before):
+            r.add_route(t, Res(i))
+        if with_b:
+            r.add_route(tpl_b, Res(99))
+        return r
+
+    holder['sched'] = None
+    posts = [path_a, path_b] + [warm or '/warm']
+    want_a = safe(lambda: canon_find(make(False).find(path_a)))
+    r1 = make(True)
+    want_b = safe(lambda: canon_find(r1.find(path_b)))
+    want_post = [safe(lambda p=p: canon_find(r1.find(p))) for p in posts]
+    state = {}
+
+    def run_schedule(decisions):
+        holder['sched'] = None
+        r = make(False)
+        if warm:
+            r.find(warm)
+        sched = ThreadSched(compiled.__file__, thread_sweep.lines, lambda: state.get('lock'), thread_sweep.inner)
+        lock = CoopLock(sched)
+        state['lock'] = lock
+        r._compile_lock = lock
+        holder['sched'] = sched
+
+        def fa():
+            return canon_find(r.find(path_a))
+
+        def fb():
+            r.add_route(tpl_b, Res(99))
+            return canon_find(r.find(path_b))
+        try:
+            trace, res = sched.run([fa, fb], decisions)
+            dead = False
+        except Deadlock as d:
+            trace, res, dead = d.args[0], list(sched.results), True
+        holder['sched'] = None
+        post = [safe(lambda p=p: canon_find(r.find(p))) for p in posts] if not dead else []
+        return trace, (res, post, dead)
+
+    n = 0
+    def allow(trace, s):
+        # the scenario starts once A is inside the compiled finder, parked in convert(): only from
+        # there on may the schedule deviate (add_route racing with the *entry* of a lookup - find()
+        # reading self._find and the tables one after the other, or a first compilation still in
+        # progress - is outside the property: see notes/C19.md, "add_route while serving")
+        return any(len(t) > 4 and t[0] == 0 and t[4] == ('convert', 0) for t in trace[:s + 1])
+
+    it = [(decisions_only, run_schedule(decisions_only)[1])] if decisions_only is not None else \
+        explore(run_schedule, max_preempt, None, allow=allow)
+    for decisions, (res, post, dead) in it:
+        n += 1
+        if deadline is not None and time.time() > deadline:
+            ctx.count('sweeps-cut-by-deadline')
+            break
+        detail = {'mode': 'inflight', 'scenario': list(scenario), 'decisions': {str(k): v for k, v in decisions.items()},
+                  'tag': tag}
+        if dead:
+            ctx.violation('deadlock', detail, key='deadlock')
+        elif res[0] != want_a:
+            ctx.violation('concurrent-lookup-differs',
+                          dict(detail, thread='A (lookup in flight while a route is added and the router recompiled)',
+                               path=path_a, concurrent=repr(res[0]), serial=repr(want_a)), key='inflight-a')
+        elif res[1] != want_b or post != want_post:
+            ctx.violation('lookup-after-race-differs',
+                          dict(detail, concurrent=repr((res[1], post)), serial=repr((want_b, want_post))), key='inflight-b')
+        ctx.count('inflight-schedules')
+    ctx.note_case((tag, 'inflight', json.dumps(list(scenario))), True)
     return n
 
 
@@ -1325,6 +1429,10 @@ def main(ctx):
         dl = T(0, 500)
         for tpls in sets[:3]:
             thread_sweep(ctx, model, tpls, 3, 3, 6000, 'thr3', deadline=dl)
+    # --- a lookup in flight (parked inside a converter) while another thread adds a route and recompiles
+    dl = T(8, 200)
+    for sc in INFLIGHT:
+        inflight_sweep(ctx, sc, 2 if quick else 3, 'inflight', deadline=dl)
     # --- threads, through falcon.App
     dl = T(10, 300)
     for tpls in (sets[:1] if quick else sets[:4]):
@@ -1393,6 +1501,8 @@ def replay(ctx, obj):
                      decisions_only=dec, paths=(obj['thread_paths'], obj['post_paths']))
     elif mode == 'asgi':
         asgi_sweep(ctx, obj['spec'], obj['requests'], 0, None, 'replay', decisions_only=dec)
+    elif mode == 'inflight':
+        inflight_sweep(ctx, tuple(obj['scenario']), 0, 'replay', decisions_only=dec)
     elif mode == 'marks-threads':
         setup_app_lines()
         import falcon as _f
